@@ -138,6 +138,10 @@ def gen_se(w, r, pure=False):
         if s is None:
             return None
         op["args"] = [gen_off(w, r, bi), s]
+        if r.random() < w.cfg.get("p_se_junk_key", 0.0):
+            # a key that is no offset and cannot be ordered against the offsets present
+            op["args"][0] = r.choice(["4", None, "x"])
+            op["junk_key"] = True
     elif meth in ("delitem", "getitem", "get", "contains"):
         op["args"] = [gen_off(w, r, bi)]
     elif meth == "pop":
